@@ -57,6 +57,7 @@ type Obligation struct {
 	Backend  string
 	ModelIDs []string
 	Model    map[string]string
+	Replay   *replaySpec
 }
 
 type Exec struct {
@@ -136,6 +137,13 @@ type loopInfo struct {
 func (x *Exec) obligation(st *State, kind, name string, goal Term, props []string, desc string, where string) *Obligation {
 	o := &Obligation{Name: name, Kind: kind, Func: x.curFunc, Props: props, Pos: x.sc.Pos(),
 		Goal: Implies(st.reach, goal), Desc: desc, Where: where, Script: x.sc}
+	if x.topFrame != nil && x.top != nil && (kind == "no-panic" || kind == "in-len") {
+		var ps []*Val
+		for _, p := range x.top.Params {
+			ps = append(ps, x.topFrame.env[p])
+		}
+		o.Replay = &replaySpec{fn: x.top, params: ps, entry: x.topFrame.entry, x: x}
+	}
 	x.obls = append(x.obls, o)
 	return o
 }
@@ -548,6 +556,38 @@ func (x *Exec) loopClauses(fr *Frame, li *loopInfo, kind string) []*Clause {
 // name) and cells (allocs) by their comment.
 func (x *Exec) loopEnv(fr *Frame, li *loopInfo, st *State, override map[*ssa.Phi]*Val) *CEnv {
 	env := x.contractEnv(fr, st)
+	// source variables merged before the loop: nearest dominating phi wins
+	var doms []*ssa.BasicBlock
+	for b := li.head.Idom(); b != nil; b = b.Idom() {
+		doms = append(doms, b)
+	}
+	for k := len(doms) - 1; k >= 0; k-- {
+		for _, ins := range doms[k].Instrs {
+			phi, ok := ins.(*ssa.Phi)
+			if !ok {
+				break
+			}
+			if v := fr.env[phi]; v != nil && phi.Comment != "" {
+				env.vars[phi.Comment] = x.cvOfVal(v)
+			}
+		}
+	}
+	// string iterators of this loop: byte offset of the next rune
+	nIt := 0
+	for _, ins := range li.head.Instrs {
+		if nx, ok := ins.(*ssa.Next); ok && nx.IsString {
+			if r, ok := nx.Iter.(*ssa.Range); ok {
+				if pos, ok := st.cells[cellKey{fr.id, "iter_" + r.Name()}]; ok {
+					name := "rangepos"
+					if nIt > 0 {
+						name = fmt.Sprintf("rangepos%d", nIt)
+					}
+					env.vars[name] = &CV{T: pos, Ty: types.Typ[types.Int]}
+					nIt++
+				}
+			}
+		}
+	}
 	for _, ins := range li.head.Instrs {
 		phi, ok := ins.(*ssa.Phi)
 		if !ok {
